@@ -126,7 +126,11 @@ def mapProbOfJson (j : Json) : Option MapProb := do
     let v ← svarOfJson a
     let d ← getRat a "idc"
     pure (⟨v, d⟩ : ColVar))
-  let cins ← getRatMat j "cins"
+  let ci ← getArr j "cins"
+  let cins ← ci.mapM (fun a => do
+    let ks ← getKnots a "t" "v"
+    let mode ← getNat a "mode"
+    pure (⟨ks, mode⟩ : CIn))
   let pathv ← getRatMat j "pathv"
   let pars ← getRatList j "pars"
   pure ⟨t0, times, cols, cins, pathv, pars⟩
